@@ -217,6 +217,7 @@ func drawTunCfg(e *Env) tunCfg {
 	case "C12":
 		c.Senders = 1
 	}
+	c.Up.LateExtra, c.Down.LateExtra = 3*c.R, 3*c.R
 	if c.TCP {
 		c.Adversary, c.Director = 0, 0
 		c.Up.DropPermille, c.Up.DupPermille, c.Up.LatePermille = 0, 0, 0
@@ -313,6 +314,32 @@ func runTunnel(e *Env) {
 	if c.TCP {
 		runTunnelTCP(r)
 		return
+	}
+	// Assumption guard of C05 (enforced, not trusted): no datagram outlives 254 later exchanges.
+	// Every datagram remembers how many tunnelling requests had been started when it was sent;
+	// a copy that would arrive more than 200 new requests later is lost instead (a loss is
+	// something the network may always do).
+	{
+		started := 0
+		seenReq := map[string]bool{}
+		atSend := map[uint64]int{}
+		e.F.OnSend = func(rec *simnet.Rec) {
+			if f := parseFrame(rec.Data); f.OK && f.Svc == svcTunnelReq {
+				k := rec.Src + string(rec.Data)
+				if !seenReq[k] {
+					seenReq[k] = true
+					started++
+				}
+			}
+			atSend[rec.Seq] = started
+		}
+		e.F.DeliverFilter = func(rec *simnet.Rec) bool {
+			if n, ok := atSend[rec.Ref]; ok && started-n > 200 {
+				e.Fault("datagram-lifetime-guard")
+				return false
+			}
+			return true
+		}
 	}
 	r.gw = newGateway(e, gwIP, gwPort)
 	r.gw.Window = c.Window
